@@ -37,9 +37,9 @@ TEXTS = {
                            "exactly one well-formed same-kind fragment per distinct slot carrying that slot's keys (with values) in request order; the input dimension is sampled, so the level is modest",
                 level_note=_sim_note),
     "C07": dict(design_ref="6/C07", technique=_T + "reference merge of the fragment replies actually returned in the run, under seeded arrival orders",
-                level_text="split requests over pre-populated stores with fragment replies released in seeded orders and byte-level interleavings; the client's reply must equal the harness's own "
+                level_text="split requests over pre-populated stores with fragment replies released in seeded orders and byte-level interleavings, plus exhaustive arrival orders for fixed shapes; the client's reply must equal the harness's own "
                            "merge (MGET per-key elements in request order, DEL sum, MSET conjunction) of what each node returned",
-                level_note=_sim_note + " Exhaustive k! arrival-order enumeration is not built; orders are sampled (98% of quick runs contain an out-of-order arrival)."),
+                level_note=_sim_note + " Thorough additionally enumerates all k! release orders (k<=5) of 40 fixed request shapes, and for a subset every cut of the first reply within its first 12 bytes."),
     "C08": dict(design_ref="6/C08", technique=_T + "planned-request oracle under seeded and enumerated segmentations",
                 level_text="well-formed pipelines cut into random chunks, 1-byte chunks and (thorough) every single cut position / cut pairs of fixed pipelines, read buffers from 16 B to 64 KiB; exactly the "
                            "planned requests must be recognised once each, in order, unaltered; the connection is never closed or answered early",
